@@ -5,6 +5,7 @@ import (
 	"encoding/asn1"
 	"time"
 
+	"github.com/wokdav/gopki/generator"
 	"github.com/wokdav/gopki/generator/cert"
 	"github.com/wokdav/gopki/generator/config"
 )
@@ -243,4 +244,57 @@ func vhHashProfileEdit() {
 	}
 	vReach("edited")
 	vAssert(!vBytesEq(m1.HashSum(), m2.HashSum()), "an edit of the profile that changes the generated certificate left the configuration hash unchanged")
+}
+
+// vhGenerationKeepsConfig: C13, "an unchanged configuration never looks
+// changed": the hash stored with a certificate is taken after generation, the
+// hash compared on the next run is taken from the freshly read file - so
+// building and signing must not modify the configuration object. For every
+// extension kind with structured content (basicConstraints with cA and
+// pathLen symbolic, names, lists in non-sorted order, nested admission) and
+// with raw content, the hash of the configuration is the same before and
+// after BuildCertBody + SignCertBody, and the same as the hash of an identical
+// configuration that was never used for generation.
+func vhGenerationKeepsConfig() {
+	vClockFixed(1709640000)
+	pl := vInt("pathLen", 0, 255)
+	ca := vBool("ca")
+	kind := vChoose("kind", 11)
+	mk := func() CertConfig {
+		all := []AnyExtension{
+			{SubjectKeyIdentifier: &SubjectKeyIdentifier{Content: "hash"}},
+			{KeyUsage: &KeyUsage{Content: []string{KeyCertSign, DigitalSignature}, Critical: true}},
+			{SubjectAltName: &SubjectAltName{Content: []SubjAltNameComponent{{Type: "dns", Name: "B.example"}, {Type: "ip", Name: "010.000.000.007"}}}},
+			{BasicConstraints: &BasicConstraints{Content: &BasicConstraintsObj{Ca: ca, PathLen: pl}, Critical: true}},
+			{CertPolicies: &CertPolicies{Content: []CertPolicy{{Oid: "1.2.3", Qualifiers: []PolicyQualifiers{{Cps: "http://cps"}, {UserNotice: &UserNotice{Organization: "Org", Numbers: []int{2, 1}, Text: "t"}}}}}}},
+			{AuthInfoAccess: &AuthInfoAccess{Content: []SingleAuthInfo{{Ocsp: "http://b"}, {Ocsp: "http://a"}}}},
+			{AuthKeyId: &AuthKeyId{Content: AuthKeyIdContent{Id: "hash"}}},
+			{ExtKeyUsage: &ExtKeyUsage{Content: []string{ServerAuth, "1.2.3.4", ClientAuth}}},
+			{AdmissionExtension: &AdmissionExtension{Content: &Admission{AdmissionAuthority: GeneralName{Type: "dns", Name: "Top"}, Admissions: []SingleAdmission{{
+				AdmissionAuthority: GeneralName{Type: "ip", Name: "010.001.002.003"}, NamingAuthority: NamingAuthority{Oid: "1.2.3", Url: "u", Text: "t"},
+				ProfessionInfos: []ProfessionInfo{{ProfessionItems: []string{"b", "a"}, ProfessionOids: []string{"1.3.4"}, RegistrationNumber: "r", AddProfessionInfo: binaryPrefix + "AQID"}}}}}}},
+			{OcspNoCheckExtension: &OcspNoCheckExtension{}},
+			{CustomExtension: &CustomExtension{OidStr: "1.2.3.4.5", Raw: binaryPrefix + "AQID", Critical: true}},
+		}
+		return CertConfig{Subject: "C=DE,CN=x", SerialNumber: 4711, IssuerUniqueId: binaryPrefix + "AQID", Extensions: []AnyExtension{all[kind]}}
+	}
+	used, err1 := initCertificate(mk())
+	fresh, err2 := initCertificate(mk())
+	vAssert(err1 == nil && err2 == nil && used != nil && fresh != nil, "initCertificate rejected a valid configuration")
+	if err1 != nil || err2 != nil || used == nil || fresh == nil {
+		return
+	}
+	before := used.HashSum()
+	ctx, err := generator.BuildCertBody(*used, nil, nil)
+	if err == nil {
+		_, err = generator.SignCertBody(ctx, *used)
+	}
+	if err != nil {
+		vReach("error")
+	} else {
+		vReach("generated")
+	}
+	after := used.HashSum()
+	vAssert(vBytesEq(before, after), "generating a certificate modified its configuration (the stored hash will differ from the hash of the unchanged file)")
+	vAssert(vBytesEq(after, fresh.HashSum()), "a configuration that was used for generation hashes differently from an identical one that was not")
 }
